@@ -259,6 +259,23 @@ def replay(name, kind):
                     bad.append(f"sample_shape {ss}: sample_and_log_prob draws differ from sample with the same key")
                 if not np.allclose(np.asarray(lp), np.asarray(d.log_prob(jnp.asarray(s), None if c is None else jnp.asarray(c))), rtol=1e-6, atol=1e-6):
                     bad.append(f"sample_shape {ss} cond batch {bc}: returned log-probs differ from log_prob(samples)")
+                if cs is not None and int(np.prod(bc)) > 1:
+                    # distinct condition rows: element [sample idx, condition idx] must be a draw FOR THAT condition, i.e. the log-prob returned
+                    # with it equals log_prob(sample, that condition) and sample() agrees with sample_and_log_prob() for the same key
+                    c2 = rng.normal(size=bc + cs) * 3.0
+                    try:
+                        sa = np.asarray(d.sample(k, ss, jnp.asarray(c2)))
+                        sb, lpb = d.sample_and_log_prob(k, ss, jnp.asarray(c2))
+                    except Exception as e:  # noqa
+                        bad.append(f"sample_shape {ss} cond batch {bc} (distinct conditions): raised {type(e).__name__}")
+                        continue
+                    want = np.empty(ss + bc)
+                    for idx in np.ndindex(ss + bc):
+                        cidx = idx[len(ss):]
+                        want[idx] = float(d.log_prob(jnp.asarray(np.asarray(sb)[idx]), jnp.asarray(c2[cidx])))
+                    if not np.allclose(np.asarray(sb), sa) or not np.allclose(np.asarray(lpb), want, rtol=1e-6, atol=1e-6):
+                        bad.append(f"sample_shape {ss} cond batch {bc}: with distinct conditions the element [.., condition j] is not a draw for condition j "
+                                   f"(returned log-probs {np.asarray(lpb).ravel()[:4].tolist()} vs log_prob(sample, condition j) {want.ravel()[:4].tolist()})")
     return bool(bad), "; ".join(bad[:3]) or "batched == loop on the replay inputs"
 
 
